@@ -1,6 +1,7 @@
 SPECIFICATION GSpec
 CONSTANTS
   Values = {1, 2, 3}
+  NegMag = {1}
   Gaps = {0, 1}
   MaxLen = 4
 INVARIANT Emit
